@@ -1,14 +1,14 @@
-(* Obligation C20/lognormal_params_mv_inverse.  Statement as printed by Coq from Inferno.C20.DistProofs; proof by reference.
+(* Obligation C20/lognormal_params_mv_inverse.  Statement as printed by Coq from Inferno.C20.DistLogNormal; proof by reference.
    This file contains nothing else, so the statement cannot be weakened quietly. *)
 From Coq Require Import Reals List ZArith Bool.
 From Coquelicot Require Import Coquelicot.
 From Flocq Require Import Core.Raux.
-From Inferno Require Import Base.Num Base.NumR C20.Model C20.Spec C20.DistProofs.
+From Inferno Require Import Base.Num Base.NumR Gen.Distributions C20.Model C20.Spec C20.DistLogNormal.
 Import ListNotations.
 Open Scope R_scope.
 Theorem lognormal_params_mv_inverse : forall (loc : T RN) (scale : R),
   0 <= scale ->
   lognormal_params_mv RN (lognormal_mean RN loc scale) (lognormal_variance RN loc scale) =
   (loc, scale).
-Proof. exact (@Inferno.C20.DistProofs.lognormal_params_mv_inverse). Qed.
+Proof. exact (@Inferno.C20.DistLogNormal.lognormal_params_mv_inverse). Qed.
 Print Assumptions lognormal_params_mv_inverse.
